@@ -35,6 +35,13 @@ pub struct Flat { pub a: u8, #[serde(flatten)] pub rest: BTreeMap<String, i32> }
 pub struct NewT(pub i32);
 #[derive(Serialize, Deserialize, PartialEq, Debug, Clone)]
 pub struct Bytes(#[serde(with = "serde_bytes")] pub Vec<u8>);
+/// a position whose content is ignored (IgnoredAny): any well-formed value is accepted, nothing else
+#[derive(Debug, Clone)]
+pub struct Ign;
+impl PartialEq for Ign { fn eq(&self, _: &Ign) -> bool { true } }
+impl<'de> Deserialize<'de> for Ign { fn deserialize<D: serde::Deserializer<'de>>(d: D) -> Result<Self, D::Error> { serde::de::IgnoredAny::deserialize(d).map(|_| Ign) } }
+#[derive(Deserialize, PartialEq, Debug, Clone)]
+pub struct SBytes { pub a: serde_bytes::ByteBuf, pub s: String, pub b: serde_bytes::ByteBuf }
 #[derive(Deserialize, PartialEq, Debug)]
 pub struct Borrow<'a> { #[serde(borrow)] pub s: std::borrow::Cow<'a, str>, pub k: &'a str }
 
@@ -42,8 +49,8 @@ pub struct Borrow<'a> { #[serde(borrow)] pub s: std::borrow::Cow<'a, str>, pub k
 pub trait Arb: Sized { fn arb(rng: &mut Rng) -> Self; }
 macro_rules! arb_int { ($($t:ty),*) => { $(impl Arb for $t { fn arb(rng: &mut Rng) -> Self { match rng.below(4) { 0 => <$t>::MIN, 1 => <$t>::MAX, 2 => 0 as $t, _ => (rng.next() as $t) >> rng.below(<$t>::BITS as usize) } } })* } }
 arb_int!(u8, i8, u16, i16, u32, i32, u64, i64);
-impl Arb for u128 { fn arb(rng: &mut Rng) -> Self { match rng.below(4) { 0 => u128::MAX, 1 => 0, 2 => u64::MAX as u128 + rng.below(3) as u128, _ => ((rng.next() as u128) << 64 | rng.next() as u128) >> rng.below(128) } } }
-impl Arb for i128 { fn arb(rng: &mut Rng) -> Self { match rng.below(5) { 0 => i128::MAX, 1 => i128::MIN, 2 => 0, 3 => i64::MIN as i128 - rng.below(3) as i128, _ => (((rng.next() as u128) << 64 | rng.next() as u128) >> rng.below(128)) as i128 } } }
+impl Arb for u128 { fn arb(rng: &mut Rng) -> Self { match rng.below(6) { 0 => u128::MAX, 1 => 0, 2 => u64::MAX as u128 - 1 + rng.below(3) as u128, 4 => i64::MAX as u128 - 1 + rng.below(3) as u128, 5 => rng.next() as u128, _ => ((rng.next() as u128) << 64 | rng.next() as u128) >> rng.below(128) } } }
+impl Arb for i128 { fn arb(rng: &mut Rng) -> Self { match rng.below(8) { 0 => i128::MAX, 1 => i128::MIN, 2 => 0, 3 => i64::MIN as i128 - rng.below(3) as i128 + 1, 5 => u64::MAX as i128 - 1 + rng.below(3) as i128, 6 => i64::MAX as i128 - 1 + rng.below(3) as i128, 7 => rng.next() as i128, _ => (((rng.next() as u128) << 64 | rng.next() as u128) >> rng.below(128)) as i128 } } }
 impl Arb for bool { fn arb(rng: &mut Rng) -> Self { rng.chance(1, 2) } }
 impl Arb for f64 { fn arb(rng: &mut Rng) -> Self { match rng.below(6) { 0 => 0.0, 1 => -0.0, 2 => f64::MAX, 3 => 5e-324, 4 => (rng.below(4000) as f64 - 2000.0) / 16.0, _ => { let x = f64::from_bits(rng.next()); if x.is_finite() { x } else { 1.5 } } } } }
 impl Arb for f32 { fn arb(rng: &mut Rng) -> Self { match rng.below(4) { 0 => 0.0, 1 => 0.1, 2 => (rng.below(400) as f32 - 200.0) / 8.0, _ => { let x = f32::from_bits(rng.next() as u32); if x.is_finite() { x } else { 2.5 } } } } }
@@ -74,6 +81,50 @@ pub struct TyEntry {
     pub de: fn(&[u8]) -> J,
     /// the conversion square on an arbitrary value (None for types that are only deserialized)
     pub conv: Option<fn(&mut Rng) -> J>,
+    /// a text of the type's shape for types without a conversion square
+    pub gen: Option<fn(&mut Rng) -> Vec<u8>>,
+}
+
+/// a JSON string literal with arbitrary content bytes (possibly not UTF-8, possibly escapes incl. lone surrogates)
+fn blob(rng: &mut Rng) -> Vec<u8> {
+    let mut v = vec![b'"'];
+    for _ in 0..rng.below(6) {
+        match rng.below(8) {
+            0 => v.push(0xff), 1 => v.extend_from_slice(&[0xc3, 0x28]), 2 => v.extend_from_slice(&[0xe2, 0x82]), 3 => v.extend_from_slice("é中".as_bytes()),
+            4 => v.extend_from_slice(b"\\n\\u0041"), 5 if rng.chance(1, 4) => v.extend_from_slice(b"\\ud800"), 6 => v.push(0x80 + rng.below(64) as u8), _ => v.push(b'a' + rng.below(26) as u8),
+        }
+    }
+    v.push(b'"');
+    v
+}
+fn plain_str(rng: &mut Rng) -> Vec<u8> { let mut v = vec![b'"']; for _ in 0..rng.below(5) { v.push(b'a' + rng.below(26) as u8); } if rng.chance(1, 4) { v.extend_from_slice("é".as_bytes()); } v.push(b'"'); v }
+fn gen_vec_bytes(rng: &mut Rng) -> Vec<u8> { let mut v = vec![b'[']; let n = rng.below(5); for i in 0..n { if i > 0 { v.push(b','); } if rng.chance(1, 5) { v.extend_from_slice(b"[1,2]"); } else { v.extend(blob(rng)); } } v.push(b']'); v }
+fn gen_sbytes(rng: &mut Rng) -> Vec<u8> {
+    let mut parts: Vec<Vec<u8>> = vec![[b"\"a\":".to_vec(), blob(rng)].concat(), [b"\"s\":".to_vec(), plain_str(rng)].concat(), [b"\"b\":".to_vec(), blob(rng)].concat()];
+    if rng.chance(1, 3) { let i = rng.below(3); let p = parts.remove(i); parts.push(p); }
+    if rng.chance(1, 3) { parts.insert(rng.below(3), [b"\"zz\":".to_vec(), blob(rng)].concat()); }
+    let mut v = vec![b'{']; for (i, p) in parts.iter().enumerate() { if i > 0 { v.push(b','); } v.extend_from_slice(p); } v.push(b'}'); v
+}
+fn gen_tup_bytes(rng: &mut Rng) -> Vec<u8> { [b"[".to_vec(), blob(rng), b",".to_vec(), plain_str(rng), b",".to_vec(), blob(rng), b"]".to_vec()].concat() }
+fn gen_map_bytes(rng: &mut Rng) -> Vec<u8> { let mut v = vec![b'{']; for i in 0..rng.below(4) { if i > 0 { v.push(b','); } v.extend(plain_str(rng)); v.push(b':'); v.extend(blob(rng)); } v.push(b'}'); v }
+fn gen_borrow(rng: &mut Rng) -> Vec<u8> { [b"{\"s\":".to_vec(), if rng.chance(1, 2) { plain_str(rng) } else { b"\"a\\nb\"".to_vec() }, b",\"k\":".to_vec(), plain_str(rng), b"}".to_vec()].concat() }
+fn gen_any(rng: &mut Rng) -> Vec<u8> { let mut g = crate::jt::Gen { rng }; g.doc() }
+
+/// values that are wrong in a way a skipper that only counts brackets and quotes does not see, and right ones
+pub const JUNK: &[&[u8]] = &[b"[1 2]", b"[1,]", b"{\"k\" 1}", b"{1:2}", b"01", b"1x", b"\"\\q\"", b"\"a\x01b\"", b"[tru]", b"nul", b"-", b"1.", b"[,1]", b"{\"a\":1,}", b"{\"a\"}", b"[1:2]",
+    b"\"\\ud800\"", b"\"\xff\"", b"tr", b"[\"a\" \"b\"]", b"{\"a\":[}]}", b"1e", b"+1", b"[1,2]", b"{\"q\":null}", b"\"ok\"", b"1.5e3", b"[[],{}]", b"\"\\u00e9\\n\""];
+/// insert a member with an unknown name whose value is taken from JUNK into some object of the text
+pub fn inject_unknown(rng: &mut Rng, text: &[u8]) -> Option<Vec<u8>> {
+    let opens: Vec<usize> = text.iter().enumerate().filter(|(_, b)| **b == b'{').map(|(i, _)| i).collect();
+    if opens.is_empty() { return None; }
+    let i = *rng.pick(&opens);
+    let junk = *rng.pick(JUNK);
+    let empty = text.get(i + 1) == Some(&b'}');
+    let mut v = text[..=i].to_vec();
+    v.extend_from_slice(b"\"zz\":"); v.extend_from_slice(junk);
+    if !empty { v.push(b','); }
+    v.extend_from_slice(&text[i + 1..]);
+    Some(v)
 }
 
 fn de_cmp<T: DeserializeOwned + PartialEq + Debug>(b: &[u8]) -> J {
@@ -116,7 +167,8 @@ fn conv<T: Arb + Serialize + DeserializeOwned + PartialEq + Debug>(rng: &mut Rng
     });
     r.unwrap_or_else(|p| json!({"panic":true,"msg":p}))
 }
-macro_rules! ty { ($name:expr, $t:ty) => { TyEntry { name: $name, de: de_cmp::<$t>, conv: Some(conv::<$t>) } }; }
+macro_rules! ty { ($name:expr, $t:ty) => { TyEntry { name: $name, de: de_cmp::<$t>, conv: Some(conv::<$t>), gen: None } }; }
+macro_rules! tyg { ($name:expr, $t:ty, $g:expr) => { TyEntry { name: $name, de: de_cmp::<$t>, conv: None, gen: Some($g) } }; }
 
 pub fn registry() -> Vec<TyEntry> {
     vec![
@@ -129,7 +181,10 @@ pub fn registry() -> Vec<TyEntry> {
         ty!("struct_ab", SAb), ty!("struct_deny", SDeny), ty!("struct_nested", SNested), ty!("newtype_i32", NewT),
         ty!("unit_enum", UnitE), ty!("enum_e", EnumE), ty!("vec_enum_e", Vec<EnumE>),
         ty!("untagged", Untagged), ty!("internal", Internal), ty!("adjacent", Adjacent), ty!("flatten", Flat), ty!("bytes", Bytes),
-        TyEntry { name: "borrow", de: de_cmp_borrow, conv: None },
+        TyEntry { name: "borrow", de: de_cmp_borrow, conv: None, gen: Some(gen_borrow) },
+        tyg!("ignored", Ign, gen_any), tyg!("vec_ignored", Vec<Ign>, gen_any), tyg!("map_string_ignored", BTreeMap<String, Ign>, gen_any),
+        tyg!("vec_bytebuf", Vec<serde_bytes::ByteBuf>, gen_vec_bytes), tyg!("struct_bytes", SBytes, gen_sbytes),
+        tyg!("tup_bytes", (serde_bytes::ByteBuf, String, serde_bytes::ByteBuf), gen_tup_bytes), tyg!("map_string_bytebuf", BTreeMap<String, serde_bytes::ByteBuf>, gen_map_bytes),
     ]
 }
 
@@ -192,6 +247,16 @@ fn eq_event(rng: &mut Rng) -> Option<J> {
                 "da": dump_value(&va).ok()?, "db": dump_value(&vb).ok()?}))
 }
 
+/// one (type, text) pair: prints the differential record
+pub fn probe(args: &[String]) -> i32 {
+    let name = arg(args, "--ty").expect("--ty");
+    let text = unhex(arg(args, "--hex").expect("--hex"));
+    let reg = registry();
+    let Some(e) = reg.iter().find(|e| e.name == name) else { eprintln!("unknown type"); return 2 };
+    println!("{}", (e.de)(&text));
+    0
+}
+
 /// I->S: mutated texts per type (differential) and the conversion square
 pub fn record(args: &[String]) -> i32 {
     let seed = arg_u64(args, "--seed", 1);
@@ -215,15 +280,23 @@ pub fn record(args: &[String]) -> i32 {
             j["ev"] = json!("conv"); j["ty"] = json!(e.name);
             j
         } else {
-            // a valid text of the type (from an arbitrary value) then mutated: type-directed near-misses
-            let Some(c) = e.conv else { continue };
-            let j = c(&mut rng);
-            let Some(text) = j["text"]["b"].as_array() else { continue };
-            let mut text: Vec<u8> = text.iter().map(|x| x.as_u64().unwrap() as u8).collect();
-            if rng.chance(2, 3) { let mut g = crate::jt::Gen { rng: &mut rng }; text = g.mutate(&text); }
+            // a valid text of the type (from an arbitrary value, or the type's own generator) then mutated: type-directed near-misses
+            let mut text: Vec<u8> = if let Some(c) = e.conv {
+                let j = c(&mut rng);
+                let Some(text) = j["text"]["b"].as_array() else { continue };
+                text.iter().map(|x| x.as_u64().unwrap() as u8).collect()
+            } else if let Some(g) = e.gen { g(&mut rng) } else { continue };
+            let bytesfam = matches!(e.name, "bytes" | "vec_bytebuf" | "struct_bytes" | "tup_bytes" | "map_string_bytebuf");
+            // generated texts of the byte-buffer family keep every non-UTF-8 byte inside a byte-buffer string unless an unknown member was added
+            let mut blobonly = bytesfam && !text.windows(4).any(|w| w == b"\"zz\"");
+            match rng.below(6) {
+                0 | 1 => {}
+                2 => { if let Some(t) = inject_unknown(&mut rng, &text) { text = t; blobonly = false; } }
+                _ => { let mut g = crate::jt::Gen { rng: &mut rng }; text = g.mutate(&text); blobonly = false; }
+            }
             inflight.set(i, &text);
             let r = (e.de)(&text);
-            json!({"ev":"de","ty":e.name,"text":bytes_j(&text),"res":r})
+            json!({"ev":"de","ty":e.name,"text":bytes_j(&text),"res":r,"blobonly":blobonly,"bytesfam":bytesfam})
         };
         outs[(count % shards) as usize].line(&ev);
         count += 1;
